@@ -31,6 +31,13 @@ class BodyRaised(Exception):
     pass
 
 
+class CallLimit(BaseException):
+    """The editor made more file-system calls than any terminating run on <= 9 files can need."""
+
+
+MAX_CALLS = 400
+
+
 # ------------------------------------------------------------------------------------------------
 # tie: the two parameters of the model are read off the source
 def source_config(ctx) -> tuple[bool, bool] | None:
@@ -286,6 +293,8 @@ def fs_log(log: list):
             return None
 
     def w_open(file, mode='r', *a, **kw):
+        if len(log) > MAX_CALLS:
+            raise CallLimit()
         if not isinstance(file, int):
             log.append(('w' if any(c in mode for c in 'wax+') else 'r', os.fspath(file), ab(file)))
         return real_open(file, mode, *a, **kw)
@@ -480,6 +489,9 @@ def monitors(scn, obs, reach: tuple[set[str], bool]) -> list[tuple[str, str]]:
     def untouched(rel) -> bool:
         return rel in after and after[rel] == before[rel] and os.path.join(D, rel) not in written
 
+    if isinstance(exc, CallLimit):
+        return [('C16:does-not-terminate', f'more than {MAX_CALLS} file-system calls on a tree of {len(before)} files: '
+                                           'the traversal of the include graph does not terminate')]
     if obs['stage'] in ('enter', 'body'):
         # the block raised (or could not be entered): no file is touched
         if obs['stage'] == 'body' and not isinstance(exc, BodyRaised):
@@ -585,9 +597,9 @@ def coq_case(cfg, scn, obs) -> str:
             unp.append(S(t))
     globs, gseen = [], set()
     for x in obs['log']:
-        if x[0] == 'glob' and x[1] not in gseen:
-            gseen.add(x[1])
-            globs.append(pair(S(x[1]), L(S(m) for m in x[2])))
+        if x[0] == 'glob' and os.path.normpath(x[1]) not in gseen:
+            gseen.add(os.path.normpath(x[1]))
+            globs.append(pair(S(os.path.normpath(x[1])), L(S(os.path.normpath(m)) for m in x[2])))
     kinds = {'r': 0, 'w': 1, 'unlink': 2, 'makedirs': 3, 'rename': 4, 'rmdir': 5}
     trace = [pair(kinds[x[0]], S(x[2])) for x in obs['log']
              if x[0] in kinds and x[2] and (x[2] == D or x[2].startswith(D + '/') or x[1] == '')]
